@@ -333,6 +333,9 @@ def run_replay(pid: str, path: str) -> int:
         res = proof.check_concrete(it.contract, fn, _unpickle(d["pickled"]), it.call)
         print(json.dumps(jsonable(res), indent=1))
         bad = bool(res.get("failures"))
+    elif d.get("rung") == "bounded" and (d.get("case") or {}).get("check"):
+        from . import bounded
+        bad = bounded.replay(mod, d["case"] | {"pickled": d.get("pickled")})
     elif hasattr(mod, "replay"):
         bad = mod.replay(d)
     else:
